@@ -4,6 +4,7 @@
 """
 
 import itertools
+import math
 import random
 
 from cnfgen.formula.cnf import CNF
@@ -41,6 +42,9 @@ If after enough samples we haven't got enough parities we use dense
 sampling, namely we generare all possible parities and pick at random
 m of them. This approach always succeeds, but is quite slower and
 wasteful for just few samples."""
+    if m > math.comb(n, k) * 2:
+        # (before the sparse sampling, which would try 10*m times)
+        raise ValueError("Too many parities requested")
     # Sparse sampling
     sampled_set = set()
     sampled_list = []
